@@ -21,10 +21,29 @@ struct Member<K: EnrKey> {
     origin: String,
 }
 
+/// A second, structurally different hasher (FNV-1a that also mixes in the number of writes), so that
+/// "equal records hash equally" is not judged through SipHash alone.
+struct Fnv(u64, u64);
+impl Hasher for Fnv {
+    fn finish(&self) -> u64 {
+        self.0 ^ self.1.rotate_left(32)
+    }
+    fn write(&mut self, bytes: &[u8]) {
+        self.1 += 1;
+        for b in bytes {
+            self.0 = (self.0 ^ *b as u64).wrapping_mul(0x100000001b3);
+        }
+    }
+}
+
 fn member<K: EnrKey>(e: Enr<K>, origin: String) -> Member<K> {
     let mut h = std::collections::hash_map::DefaultHasher::new();
     e.hash(&mut h);
-    Member { enc: real::encode(&e), seq: e.seq(), pairs: real::pairs_of(&e), hash: h.finish(), origin, e }
+    let mut f = Fnv(0xcbf29ce484222325, 0);
+    e.hash(&mut f);
+    // a slice of one record hashes through the record's Hash as well
+    std::slice::from_ref(&e).hash(&mut f);
+    Member { enc: real::encode(&e), seq: e.seq(), pairs: real::pairs_of(&e), hash: h.finish() ^ f.finish().rotate_left(17), origin, e }
 }
 
 pub fn run_c15_scheme<S: Sch>(tier: Tier, rep: &mut Report) {
